@@ -102,4 +102,20 @@ theorem release_waits_gone_restart (w : World) (r0 : StepResult) (hx : exitsProg
 theorem restart_releases_again (style : Style) : (taskList style .other).getLast? = some .releaseWorkloadControl := by
   cases style <;> rfl
 
+/-- **the exit clean-up starts from an empty cursor** — for every world: when one reconcile turns a Progressing rollout into a
+    Terminating / Disabling one, the status it writes carries an empty clean-up cursor.  This is the hypothesis `h0` of the cursor
+    invariant `RV.Props.Cluster.reach_inv_partial` for the deletion / disabling sequence (exit reason "other"): before the fix
+    "cursor reset" that sequence could start from a cursor the success / rollback clean-up or a reset had left. -/
+theorem exit_starts_from_empty_cursor (w : World) (r : StepResult) (h : reconcile w = .val r) (hph : w.ro.phase = .progressing)
+    (hx : r.w.ro.phase = .terminating ∨ r.w.ro.phase = .disabling) (s' : Sub) (hs : r.w.ro.sub = some s') :
+    s'.finStep = .empty := by
+  obtain ⟨r0, _, rfl⟩ := reconcile_val h
+  rw [resetOnExit_phase] at hx
+  have hfire : exitsProgressing w r0 = true := by
+    unfold exitsProgressing; rcases hx with hx | hx <;> simp [hph, hx]
+  rw [resetOnExit_sub, hfire] at hs
+  cases h0 : r0.w.ro.sub with
+  | none => rw [h0] at hs; cases hs
+  | some s0 => rw [h0] at hs; simp only [Option.map_some, Option.some.injEq] at hs; rw [← hs]; rfl
+
 end RV.Props.Release
